@@ -106,6 +106,7 @@ func fsConc(i int) *tok.Conc {
 	for k, v := range fsPools[i%len(fsPools)] {
 		c.Chunks[k] = v
 	}
+	c.Chunks["A"] = strings.ToUpper(c.Chunks["a"]) // differs from the required name "a" by letter case only
 	return c
 }
 
@@ -127,9 +128,11 @@ func (j *jail) materialise(a absFS, c *tok.Conc) error {
 	dirs := append([][]string{}, a.Dirs...)
 	sort.Slice(dirs, func(x, y int) bool { return len(dirs[x]) < len(dirs[y]) })
 	for _, d := range dirs {
-		if err := os.MkdirAll(filepath.Join(j.root, c.Seq(d)), 0o755); err != nil {
+		// an unusual mode, so that a chmod of a pre-existing directory shows up in the snapshot
+		if err := os.MkdirAll(filepath.Join(j.root, c.Seq(d)), 0o750); err != nil {
 			return err
 		}
+		os.Chmod(filepath.Join(j.root, c.Seq(d)), 0o750)
 	}
 	for _, f := range a.Files {
 		p := filepath.Join(j.root, c.Seq(f))
@@ -151,6 +154,9 @@ func (j *jail) snapshot() map[string]string {
 		rel, _ := filepath.Rel(j.root, p)
 		if d.IsDir() {
 			out[rel] = "d"
+			if fi, e := d.Info(); e == nil && fi.Mode().Perm() != 0o755 {
+				out[rel] = fmt.Sprintf("d%o", fi.Mode().Perm()) // (directories gtree makes are 0755)
+			}
 		} else {
 			b, _ := os.ReadFile(p)
 			out[rel] = "f:" + string(b)
@@ -163,7 +169,11 @@ func (j *jail) snapshot() map[string]string {
 func expectSnapshot(a absFS, pre map[string]string, c *tok.Conc) map[string]string {
 	out := map[string]string{}
 	for _, d := range a.Dirs {
-		out[filepath.Clean(c.Seq(d))] = "d"
+		p := filepath.Clean(c.Seq(d))
+		out[p] = "d"
+		if old, ok := pre[p]; ok {
+			out[p] = old // pre-existing directories keep their mode
+		}
 	}
 	for _, f := range a.Files {
 		p := filepath.Clean(c.Seq(f))
@@ -334,6 +344,8 @@ func runFsCall(pool *wproto.Pool, s *fsState, c *tok.Conc, massive, alias bool) 
 		for _, it := range s.Items {
 			rq.Items = append(rq.Items, wproto.Item{D: it.D, N: c.Seq(it.N)})
 		}
+		// the same tree has usually been used before: what an earlier operation did to it must not matter
+		rq.PreOps = [][]string{nil, {"output"}, {"walk"}, {"json", "walkiter"}, {"massive-output"}}[s.N%5]
 	} else {
 		rq.Doc = canonItemsDoc(s.Items, c)
 	}
